@@ -43,6 +43,10 @@ Lvl(lvl, fam, raw(_)) ==
      \o SetToSeq(un("ext.sqr", 0)) \o SetToSeq(un("ext.sqr", 1)) \o SetToSeq(un("ext.inv", 0)) \o SetToSeq(un("ext.inv", 1))
      \o SetToSeq(un("ext.is_zero", 0)) \o SetToSeq(un("ext.writebe", 0)) \o SetToSeq(un("ext.copy", 0)) \o SetToSeq(un("ext.copy", 1))
      \o SetToSeq({ [op |-> "ext.frob", lvl |-> lvl, a |-> raw(x), power |-> k, alias |-> al, src |-> "gen"] : x \in fam, k \in 0..13, al \in {0, 1} })
+     \* powers far beyond one period of the coefficient tables (the index must be reduced, not clamped or offset)
+     \o SetToSeq({ [op |-> "ext.frob", lvl |-> lvl, a |-> raw(x), power |-> k, alias |-> 0, src |-> "gen"] :
+                   x \in { CHOOSE z \in fam : \A i \in 1..Len(z) : z[i] # (IF lvl = 2 THEN Zero ELSE IF lvl = 6 THEN Z2 ELSE Z6) },
+                   k \in {23, 24, 25, 35, 36, 37, 47, 48, 59, 60, 61, 119, 120, 255, 256, 65535, 65536, 2147483646, 2147483647} })
      \o SetToSeq({ [op |-> "ext.exp", lvl |-> lvl, a |-> raw(x), e |-> Pad(e, 32), alias |-> al, src |-> "gen"] :
                    x \in { y \in fam : y \in { CHOOSE z \in fam : TRUE } \cup { CHOOSE z \in fam : z # (CHOOSE w \in fam : TRUE) } }, e \in Exps, al \in {0, 1} })
 
